@@ -27,7 +27,9 @@ func (m PropagateMatchersOptimizer) Optimize(expr parser.Expr) parser.Expr {
 		}
 
 		// TODO(fpetkovski): Investigate support for vector matching on a subset of labels.
-		if binOp.VectorMatching != nil && len(binOp.VectorMatching.MatchingLabels) > 0 {
+		// This includes on() with an empty list of labels: the operands are then matched
+		// regardless of their labels, so a matcher of one side says nothing about the other.
+		if binOp.VectorMatching != nil && (len(binOp.VectorMatching.MatchingLabels) > 0 || binOp.VectorMatching.On) {
 			return
 		}
 
